@@ -146,6 +146,19 @@ def main():
                         ["try_send s0 1 ; try_send s0 2 ; try_send s0 3 ; try_send s0 4 ; fut f0 = send_fut s0 5 ; poll f0 ; try_recv r0 ; wakes f0 ; len s0 ; is_full s0 ; try_send s0 6"])))[0]
     write(f"{FIND}/C06_F14_mpsc_b_async_send_fut_not_woken.case", [must(b, "mpsc_b_async:send_fut:pending-enabled-not-woken")],
           "# F14 (async shape): Pending SendFuture gets no waker call after try_recv freed a slot (len 3 of 4, is_full false, try_send ok).\n")
+    # ---------------- N1 (C04 i/ii): Disconnected returned while an item is still buffered (mpmc bounded v2)
+    parts = []
+    for fl in ["mpmc_b", "mpmc_b_async"]:
+        txt = "".join(f"#case N1-{fl}-disconnected-before-drain flavour={fl} cap=2 strategy={'rand' if sd % 2 else 'pct'} seed={sd} mode=witness\n"
+                      "P 0 clone r0 r1\nP 1 send s0 6 ; drop s0\nP 2 recv r0\nP 3 recv_batch r1 3 ; recv r1\n#end\n" for sd in range(1, 400))
+        hits = [b for b in blocks(run(txt)) if f"{fl}:recv_batch:disconnected-before-drain" in b]
+        if not hits:
+            raise SystemExit("N1 not found for " + fl)
+        parts.append(min(hits, key=len))
+    write(f"{FIND}/C04_N1_mpmc_disconnected_before_drain.case", parts,
+          "# N1 (not in DESIGN §11): mpmc bounded v2: a parked receiver whose waiter state was set to CLOSED by the last sender's drop\n"
+          "# returns Disconnected without re-checking the queue, although an item (whose wake-one went to another receiver) is still\n"
+          "# buffered; it then receives that very item by a later call (value after Disconnected).\n")
     # ---------------- observations outside F1-F16
     txt = case("OBS-oneshot-recv-after-value-taken", "oneshot", 0, ["send s0 1 ; try_recv r0 ; try_recv r0 ; recv r0"])
     b = blocks(run(txt))[0]
